@@ -10,6 +10,16 @@ COMMON_NOTE = ("Trusted base: pyvc engine (AST transform T1-T3 of the real sourc
                "lift to C), A3 (integer powers), A4 (path forking via z3), A5 (numpy shim contracts, listed per run in evidence.trusted_base). ")
 
 CLAIMED = {
+    "C25": dict(
+        category="proof",
+        text=("Exact clauses, with cern_polygamma replaced by its contract (closed forms at integer / half-integer arguments): (1) the leading-order sum rules hold EXACTLY for nf 3-6 -- "
+              "unpolarised momentum at N = 2 and quark number at N = 1, time-like momentum in the fragmentation convention (rows weighted with the second moments 2 nf and 1) and quark number, "
+              "polarised axial charge, gamma_qg(1) = 0 and gamma_gg(1) = -beta_0, QED: gluon + photon + Sigma rows of every column vanish at N = 2 at orders (1,0) and (0,1), valence / minus "
+              "number at N = 1; (2) FHMRUVV N3LO: for SYMBOLIC N the central variation equals the mean of the down and up variations for gg, gq, qg, ps, ns+, ns-, nsv and the assembled singlet block."),
+        note=COMMON_NOTE + "Not claimed: sum rules beyond leading order and of the N3LO parametrisations (they hold within parametrisation accuracy only; the code documents no tolerance) and N -> 1 limits of removable poles.",
+        technique="contract-based deductive verification: symbolic / exact execution over the polygamma contract + exact normal form",
+        design_ref="DESIGN.md section 2, C25",
+    ),
     "C18": dict(
         category="proof",
         text=("Proof part: msbar_masses.ker_expanded solves the mass RGE to the working order for generic beta and gamma_m coefficients (all nf) and orders 1-4: leading power (a1/a0)^(gamma0/beta0), "
